@@ -63,6 +63,23 @@ CALLS = [
     "field_contains(r, ['l', 's'], ['A'], nocase=False)", "any(f.name == 'extra' for f in fields('string'))", "any(f.name == 's' for f in fields('string'))",
     "any(f.typename == 'uri' for f in fields('uri'))", "all(f.name != 'link' for f in fields('uri'))",
     "field_regex(r, ['s', 't'], 'a+b')", "field_regex(r, ['t'], '^A$')", "field_regex(r, ['zz', 's'], '.')", "field_regex(r, Type.string, 'b$')",
+    # fields that exist but hold a falsy value: 0, '', None, False, [] (RECORDS[3] and RECORDS[4])
+    "field_equals(r, ['n'], [0])", "field_equals(r, ['s'], [''])", "field_equals(r, ['none', 's'], [None])", "field_equals(r, ['b'], [False])",
+    "field_equals(r, ['f'], [0.0])", "field_contains(r, ['s'], [''])", "field_contains(r, ['s', 't'], ['a', ''])", "field_contains(r, ['none'], [None], word_boundary=True)",
+    "field_regex(r, ['s'], '^$')", "field_regex(r, ['s', 'p'], '^$')", "field_equals(r, ['l'], [[]])", "field_contains(r, ['p'], [''])",
+]
+# membership in literal lists / tuples of 9 and more constants (a length class of its own for an implementation)
+LONG_LITERALS = [
+    "r.ip in ['9.9.9.1', '9.9.9.2', '9.9.9.3', '9.9.9.4', '9.9.9.5', '9.9.9.6', '9.9.9.7', '9.9.9.8', '1.2.3.4']",
+    "r.ip not in ('9.9.9.1', '9.9.9.2', '9.9.9.3', '9.9.9.4', '9.9.9.5', '9.9.9.6', '9.9.9.7', '9.9.9.8', '9.9.9.9', '10.1.2.3')",
+    "r.p in ['/q1', '/q2', '/q3', '/q4', '/q5', '/q6', '/q7', '/q8', '/bin/a', '/a']",
+    "r.n in [11, 12, 13, 14, 15, 16, 17, 18, 19, 1, 100]", "r.n not in (11, 12, 13, 14, 15, 16, 17, 18, 19, 3)",
+    "r.s in ['q1', 'q2', 'q3', 'q4', 'q5', 'q6', 'q7', 'q8', 'q9', 'a', 'ab']", "r.f in [0.5, 2.5, 3.5, 4.5, 5.5, 6.5, 7.5, 8.5, 9.5, 1.5]",
+    "r.b in [2, 3, 4, 5, 6, 7, 8, 9, 10, 1]", "r.nw in ['1.0.0.0/8', '2.0.0.0/8', '3.0.0.0/8', '4.0.0.0/8', '5.0.0.0/8', '6.0.0.0/8', '7.0.0.0/8', '8.0.0.0/8', '10.0.0.0/8']",
+    "r.u in ['u1', 'u2', 'u3', 'u4', 'u5', 'u6', 'u7', 'u8', 'u9', 'ab']", "r.l in [1, 2, 3, 4, 5, 6, 7, 8, 9]", "r.zz in [1, 2, 3, 4, 5, 6, 7, 8, 9]",
+    "r.none in [1, 2, 3, 4, 5, 6, 7, 8, None]", "Type.string in ['q1', 'q2', 'q3', 'q4', 'q5', 'q6', 'q7', 'q8', 'q9', 'ab']",
+    "Type.net.ipaddress in ['9.9.9.1', '9.9.9.2', '9.9.9.3', '9.9.9.4', '9.9.9.5', '9.9.9.6', '9.9.9.7', '9.9.9.8', '1.2.3.4']",
+    "r.sub.n in [11, 12, 13, 14, 15, 16, 17, 18, 19, 1]",
 ]
 GENS = [
     "any(x == 'a' for x in r.l)", "all(x == 'a' for x in r.l)", "any(x in r.s for x in r.l)", "all(x != r.s for x in r.l)",
@@ -87,7 +104,7 @@ MUST_REJECT = [
 
 
 def class1():
-    for a in ATOMS + TYPES + CALLS + GENS:
+    for a in ATOMS + TYPES + CALLS + GENS + LONG_LITERALS:
         yield a
 
 
